@@ -183,15 +183,17 @@ def stringToFloat (blank : Bool) (p : Option F) : R F :=
 
 def stringToFloat64 (s : StrInfo) : R F := stringToFloat s.blank s.pFloat
 
+/-- The ±Inf guards added by the fix: a rounded big integer must be finite. -/
+def finOrOverflow : F → R F
+  | .fin a k => .ok (.fin a k)
+  | _ => .error .overflow
+
 /-- `ToFloat64`. -/
 def toFloat64 : Src → R F
   | .f64 x => if x.isNaN then .error .format else .ok x
   | .f32 x => if x.isNaN then .error .format else .ok x
   | .int _ v => .ok (.fin (toF64Int v) 0)
-  | .big v =>
-    match bigToF64 v with
-    | .fin a k => .ok (.fin a k)
-    | _ => .error .overflow                                   -- Inf guard: added by the fix
+  | .big v => finOrOverflow (bigToF64 v)                        -- Inf guard: added by the fix
   | .str s => stringToFloat64 s
   | .bool b => .ok (.fin (boolInt b) 0)
   | .nilptr => .error .nilPtr
@@ -212,10 +214,7 @@ def toFloat32 : Src → R F
   | .f32 x => if x.isNaN then .error .format else .ok x
   | .int _ v => .ok (.fin (toF32Int v) 0)
   | .str s => stringToFloat s.blank s.pFloat32
-  | .big v =>
-    match bigToF32 v with
-    | .fin a k => .ok (.fin a k)
-    | _ => .error .overflow
+  | .big v => finOrOverflow (bigToF32 v)
   | s => do
     let f ← toFloat64 s
     if absGtMaxF32 f then .error .overflow else .ok (roundF32 f)
@@ -340,6 +339,12 @@ def Chk.holds (t : Tgt) (c : Chk) (v : Val) : Bool :=
 def parsePlain (t : Tgt) (c : Chk) (v : Val) : R Val :=
   if c.holds t v then .ok v else .error .check
 
+/-- What the engine does with the outcome of `coerce.To[T]`: checks on success, an
+    invalid-type issue on failure. -/
+def afterCoerce (t : Tgt) (c : Chk) : R Val → R Val
+  | .ok v => parsePlain t c v
+  | .error _ => .error .invalidType
+
 /-- Has the source (after the engine's own pointer dereference) exactly the schema's type? -/
 def exact : Tgt → Src → Option Val
   | .int t, .int t' v => if t = t' then some (.int v) else none
@@ -356,10 +361,7 @@ def exact : Tgt → Src → Option Val
 def parseCoerced (fmt32 fmt64 : F → List Nat) (t : Tgt) (c : Chk) (s : Src) : R Val :=
   match exact t s with
   | some v => parsePlain t c v
-  | none =>
-    match to fmt32 fmt64 t s with
-    | .ok v => parsePlain t c v
-    | .error _ => .error .invalidType
+  | none => afterCoerce t c (to fmt32 fmt64 t s)
 
 /-! ## The pinned commit's float branches (defects as theorems) -/
 namespace Legacy
